@@ -356,11 +356,15 @@ class Model:
             'xi': grid,
         }
 
+        # mu_r and epsilon_r are on linear scale irrespective of the mapping.
+        lin_inp = {**g2g_inp, 'log': (interpolate_opts or {}).get('log', True)}
+
         # Interpolate property_{x;y;z}; mu_r; and epsilon_r; add to dict.
         model_inp = {}
         for prop in self._def_properties:
             var = getattr(self, prop)
-            model_inp[prop] = maps.interpolate(values=var, **g2g_inp)
+            inp = g2g_inp if prop.startswith('property_') else lin_inp
+            model_inp[prop] = maps.interpolate(values=var, **inp)
 
         # Assemble new model.
         return Model(grid, mapping=self.map.name, **model_inp)
@@ -492,10 +496,13 @@ class Model:
             values = getattr(self, prop)
 
             if not midpoint:
-                if not self.map.name.startswith('L'):
+                # Average on log-scale (mu_r and epsilon_r are always linear).
+                lin = (not prop.startswith('property_') or
+                       not self.map.name.startswith('L'))
+                if lin:
                     values = np.log10(values)
                 val = np.einsum('ij,ijk->k', imat, values)
-                if not self.map.name.startswith('L'):
+                if lin:
                     val = 10**val
             else:
                 val = values[six, siy, :]
